@@ -15,12 +15,14 @@ def gen(prop, tier, seed):
     log = os.path.join(vlib.BUILD, "race_log")
     for f in glob.glob(log + ".*"):
         os.remove(f)
-    env = dict(vlib.GOENV, VERIF_RACE_LOG=log, GORACE="log_path=%s halt_on_error=0" % log)
+    cur = vlib.cur_case_path(prop)
+    if os.path.exists(cur):
+        os.remove(cur)
+    env = dict(vlib.GOENV, VERIF_RACE_LOG=log, GORACE="log_path=%s halt_on_error=0" % log, VERIF_CUR_CASE=cur)
     cases = os.path.join(vlib.BUILD, "%s.cases" % prop)
     rc, out = vlib.sh([binary, "gen", prop, tier, str(seed), cases], env=env, timeout=6000, check=False)
     if rc != 0 and rc != 66:   # 66 = the race runtime's exit code when reports were written
-        sys.stdout.write(out[-4000:])
-        raise SystemExit("BROKEN: race harness run failed (exit %d)" % rc)
+        vlib.harness_died(prop, rc, out, cases, note=", race-detector build")
     gen.reports = sum(open(f).read().count("WARNING: DATA RACE") for f in glob.glob(log + ".*"))
     gen.stacks = []
     for f in glob.glob(log + ".*"):
